@@ -911,4 +911,36 @@ theorem chain_list (f : Fmt) (h : WF f) (fl : Option Bool) : ∀ (l : List Nat) 
     show diffUlp f fl false x y + chainSum f fl (y :: t) = diffUlp f fl false x (lastOf y t)
     rw [hsum, chain3 f h fl false x y (lastOf y t) hx hy.1 hl fx hy.2 fl' hxy hyl]
 
+/-! ### the repaired `ulp` satisfies the identities on subnormals too -/
+
+theorem magVal_le_F (f : Fmt) (a : Nat) (ha : a ≤ 2 ^ f.fracBits) : magVal f a = a := by
+  have hF := F_pos f
+  rcases Nat.lt_or_eq_of_le ha with hlt | heq
+  · exact magVal_small f a hlt
+  · unfold magVal; rw [heq]; simp [Nat.div_self hF]
+
+theorem ulp_next_repaired' (f : Fmt) (h : WF f) (x : Nat) (hx : x < 2 ^ f.width) (hfin : isFiniteBits f x = true)
+    (hge : pyLt0 f x = false) (hmax : x ≠ f.maxBits) :
+    sval f (nextUp f x) = sval f x + sval f (ulpRepaired f x) := by
+  have hF := F_ge2 f h
+  have hinf := infBits_add f h
+  have h3 := minNormal_le_inf f h
+  have hmn : f.minNormalBits = 2 ^ f.fracBits := rfl
+  by_cases hsub : magBits f x ≠ 0 ∧ magBits f x < f.minNormalBits
+  · have h1S : 1 < f.signBit := by omega
+    have hsv1 : sval f 1 = 1 := by rw [sval_of_lt f 1 h1S, magVal_small f 1 (by omega)]; rfl
+    unfold ulpRepaired; rw [if_pos hsub, hsv1]
+    rcases sign_mag_cases f h x hx with ⟨hs, hmag, hlt⟩ | ⟨hs, hmag, hlt⟩
+    · rw [hmag] at hsub
+      have hnu : nextUp f x = x + 1 := by unfold nextUp; simp [hs]
+      rw [hnu, sval_of_lt f _ (by omega), sval_of_lt f _ hlt, magVal_le_F f _ (by omega), magVal_le_F f _ (by omega)]
+      push_cast; rfl
+    · exfalso
+      unfold pyLt0 at hge
+      rw [notNaN_of_finite f x hfin, hs] at hge
+      simp at hge; exact hsub.1 hge
+  · have hcls : magBits f x = 0 ∨ f.minNormalBits ≤ magBits f x := by omega
+    unfold ulpRepaired; rw [if_neg hsub]
+    exact ulp_next' f h x hx hfin hge hcls hmax
+
 end FAVerif.Ulp
